@@ -310,6 +310,11 @@ func runC01() {
 			c05CommittedPrimary(rnd.Fork())
 			rec.Count("c01:family:committed-primary")
 		}
+		// a first lock call "only if exists" on a missing key, then a long-open transaction (family of c04.go): its locks hold
+		if i%(10*thin) == 7 {
+			lockIfExistsFirst(rnd.Fork())
+			rec.Count("c01:family:lock-if-exists-first")
+		}
 		if i%(6*thin) == 2 {
 			relockScenario(rnd.Fork())
 			rec.Count("c01:family:relock")
